@@ -600,7 +600,17 @@ class Network:
 
         pending = {direct_task, indirect_task}
         while pending:
-            done, pending = await asyncio.wait(pending, return_when=asyncio.FIRST_COMPLETED)
+            try:
+                done, pending = await asyncio.wait(pending, return_when=asyncio.FIRST_COMPLETED)
+            except asyncio.CancelledError:
+                # The request got cancelled: `asyncio.wait` does not cancel
+                # the tasks it waits for
+                for pending_task in pending:
+                    pending_task.cancel()
+                for result in await asyncio.gather(*pending, return_exceptions=True):
+                    if isinstance(result, PeerConnection):
+                        await result.disconnect(CloseReason.REQUESTED)
+                raise
 
             connections = []
             for done_task in done:
